@@ -298,10 +298,10 @@ func c11One(ctx *Ctx, fn c11Fn, args []cty.Value) {
 	switch {
 	case panicked:
 		obs = "P"
-		ctx.Fail(Failure{Site: "total", Sig: "go-panic:" + c11Sig(fn.name, pmsg), What: "Call panicked: " + trunc(pmsg, 160), Input: key, GoLit: lit, Outcome: "Go panic"})
+		ctx.Fail(Failure{Site: "total", Sig: "go-panic:" + c11SigRefine(fn.name, args, c11Sig(fn.name, pmsg)), What: "Call panicked: " + trunc(pmsg, 160), Input: key, GoLit: lit, Outcome: "Go panic"})
 	case err != nil && errors.As(err, &pe):
 		obs = "E"
-		ctx.Fail(Failure{Site: "total", Sig: "panic-error:" + c11Sig(fn.name, pe.Error()), What: "Call returned an error reporting an internal panic: " + trunc(pe.Error(), 160), Input: key, GoLit: lit, Outcome: "PanicError"})
+		ctx.Fail(Failure{Site: "total", Sig: "panic-error:" + c11SigRefine(fn.name, args, c11Sig(fn.name, pe.Error())), What: "Call returned an error reporting an internal panic: " + trunc(pe.Error(), 160), Input: key, GoLit: lit, Outcome: "PanicError"})
 	case err != nil && errors.As(err, &ae):
 		obs = fmt.Sprintf("E%d", ae.Index)
 	case err != nil:
@@ -368,6 +368,8 @@ func trunc(s string, n int) string {
 func runC11(ctx *Ctx) {
 	fns := c11Funcs()
 	per := ctx.N(2500, 60000)
+	// case 0: the fixed witnesses of the allocation drivers; the source-derived table of number sites
+	c11RunWitnesses(ctx, fns)
 	for _, fn := range fns {
 		t0 := time.Now()
 		defer func(name string) {}(fn.name)
@@ -415,6 +417,10 @@ func runC11(ctx *Ctx) {
 				}
 				args[i] = c11GenArg(ctx, fn.name, i, *p, inject)
 			}
+			// caller-controlled numbers (indices, counts, widths, offsets, bases, lengths) at the
+			// boundaries the source compares them with (c11gen.go)
+			args = c11ApplyBoundaries(ctx, fn, args, inject)
+			n = len(args)
 			if inject && ctx.R.Intn(40) == 0 && n > 0 {
 				args = args[:n-1] // wrong argument count
 			}
